@@ -49,8 +49,26 @@ def viol(res, kind, **kw):
         res["violations"].append(dict(kind=kind, **kw))
 
 
+ALIASES = []
+
+
 def units_part(res, dims, si, rng, tier):
     L, T, M = U.lengths_SI, U.times_SI, U.masses_SI
+    # names of one unit carry one size; sizes fixed by definition
+    allu = {}
+    for tb in (L, T, M):
+        allu.update(tb)
+    for grp in ALIASES:
+        for nm in grp[1:]:
+            res["unit_checks"] += 1
+            if nm not in allu or grp[0] not in allu or allu[nm] != allu[grp[0]]:
+                viol(res, "unit-alias", name=nm, same_unit_as=grp[0], sizes=[allu.get(nm), allu.get(grp[0])])
+    for nm, want in (("s", 1.0), ("m", 1.0), ("kg", 1.0), ("g", 1e-3), ("gyr", 31557600.0e9)):
+        res["unit_checks"] += 1
+        if allu.get(nm) != want:
+            viol(res, "si-constant", name=nm, table=allu.get(nm), specified=want)
+    if not allu["sidereal_yr"] != allu["yr"]:
+        viol(res, "unit-alias", name="sidereal_yr", same_unit_as="(must differ from) yr", sizes=[allu["sidereal_yr"], allu["yr"]])
     # SI constants
     consts = {"au": L["au"], "yr": T["yr"], "day": T["day"], "hr": T["hr"], "km": L["km"], "cm": L["cm"], "pc": L["pc"], "kyr": T["kyr"], "myr": T["myr"], "G": U.G_SI,
               "GMsun": U.G_SI * M["msun"], "GMearth": U.G_SI * M["mearth"], "GMjupiter": U.G_SI * M["mjupiter"]}
@@ -321,6 +339,7 @@ def main():
         r = json.loads(ln)
         if r[0] == "DIM":
             dims, si = r[1]["dims"], r[1]["si"]
+            ALIASES.extend(r[1]["aliases"])
         else:
             rows.append(r)
     units_part(res, dims, si, rng, tier)
